@@ -65,7 +65,8 @@ func c14Alphabet(full bool) []c14Op {
 	chals := []string{"cur", "other", "empty"}
 	sessions := []int{0}
 	if full {
-		claimed = []string{"alice", "bob", "carol", "dave", "mallory", "ALICE", "erin"}
+		// "admin\\alice", "alice@admin": qualified forms of a configured name are not configured names
+		claimed = []string{"alice", "bob", "carol", "dave", "mallory", "ALICE", "erin", "admin\\alice", "alice@admin"}
 		chals = []string{"cur", "prev", "other", "zeros", "empty"}
 		sessions = []int{0, 1}
 	}
@@ -73,6 +74,10 @@ func c14Alphabet(full bool) []c14Op {
 	for _, s := range sessions {
 		for _, c := range claimed {
 			kps := []kp{{"", c14DB[strings.ToLower(c)]}, {"", "wrong"}, {"bob", "pw2"}, {"alice", "pw1"}}
+			if strings.ContainsAny(c, "\\@") {
+				// the account part's password, keyed with the qualified name as sent
+				kps = append(kps, kp{"", c14DB["alice"]})
+			}
 			if full {
 				kps = append(kps, kp{"", ""})
 				if c == "erin" {
@@ -246,7 +251,7 @@ func c14Run(hist []c14Op, rep *Report) (viol, detail string, trace []string) {
 }
 
 func c14(env *Env, rep *Report) {
-	rep.Rule = "every history up to depth d over an operation alphabet on two NTLM sessions: negotiate(s); authenticate(s, claimed user in {alice,bob,carol(empty password),dave(same password as alice),mallory(unknown),ALICE,erin(password with a leading and a trailing blank)}, response keyed with {claimed user's configured password, a wrong password, the empty password, bob's password as bob, alice's password as alice}, challenge in {current of s, previous of s, current of the other session, zeros, none (zero-length)}); garbage(s, {not base64, empty, type 2, truncated type 3}); clock +61 s. " +
+	rep.Rule = "every history up to depth d over an operation alphabet on two NTLM sessions: negotiate(s); authenticate(s, claimed user in {alice,bob,carol(empty password),dave(same password as alice),mallory(unknown),ALICE,admin\\alice,alice@admin,erin(password with a leading and a trailing blank)}, response keyed with {claimed user's configured password, a wrong password, the empty password, bob's password as bob, alice's password as alice}, challenge in {current of s, previous of s, current of the other session, zeros, none (zero-length)}); garbage(s, {not base64, empty, type 2, truncated type 3}); clock +61 s. " +
 		"quick: reduced alphabet (39 ops) to depth 3, full alphabet (255 ops) to depth 2; thorough: full alphabet to depth 3, reduced to depth 4. Each history is one execution against a fresh real verifier (cmd/auth/ntlm) with messages built by an independent NTLMv2 implementation. " +
 		"Oracle (three-valued): authenticated without a response keyed by the claimed user's configured non-empty password over the session's latest challenge => violation; honest exchange (negotiate then matching authenticate, nothing in between on that session, no clock jump) refused => violation; success must return exactly the claimed configured name; everything else (e.g. a second correct attempt after a failed one, or a correct response to the challenge that was current when an undecodable message was refused) is unspecified. distinct_nontrivial = histories executed."
 	rep.Assumptions = append(rep.Assumptions, "user database {alice:pw1, bob:pw2, carol:\"\", dave:pw1}", "no merging of histories: the verifier's hidden state (cached keys, contexts) is exactly what the property is about")
